@@ -1,1 +1,248 @@
 import Model.CollocFiles
+import Mathlib.Tactic
+
+/-! Invariant of the parent/worker queue system (`step`), preserved by every event. -/
+
+namespace CFiles
+
+/-- the objects of worker `w` that are in the pipe, in order -/
+def pipeOf (s : PState) (w : Nat) : List Item :=
+  (s.pipe.filter (fun x => x.1 == w)).map (·.2)
+
+structure Inv (items : Nat → List Item) (s : PState) : Prop where
+  /-- nothing is lost, duplicated or reordered per producer -/
+  conserve : ∀ w, gotFrom s w ++ pipeOf s w ++ (s.ws w).buf ++ (s.ws w).todo = items w
+  /-- a process exits only after its last put was flushed to the pipe -/
+  dead : ∀ w, (s.ws w).alive = false → (s.ws w).todo = [] ∧ (s.ws w).buf = []
+  /-- `running` contains every live process -/
+  run : ∀ w, w ∉ s.running → (s.ws w).alive = false
+  pcLoop : s.pc = .loopTest → s.running = [] → s.pipe = []
+  pcGet : s.pc = .get → s.pipe ≠ []
+  pcDone : s.pc = .done → s.running = [] ∧ s.pipe = []
+
+theorem inv_init (n : Nat) (items : Nat → List Item) (h : ∀ w, n ≤ w → items w = []) :
+    Inv items (initState n items) := by
+  refine ⟨?_, ?_, ?_, ?_, ?_, ?_⟩
+  · intro w
+    by_cases hw : w < n
+    · simp [initState, gotFrom, pipeOf, hw]
+    · simp [initState, gotFrom, pipeOf, hw, h w (Nat.le_of_not_lt hw)]
+  · intro w
+    by_cases hw : w < n <;> simp [initState, hw]
+  · intro w hw
+    simp only [initState, List.mem_range] at hw
+    simp [initState, hw]
+  · intro _ _; rfl
+  · intro h; simp [initState] at h
+  · intro h; simp [initState] at h
+
+private theorem filter_single (w w' : Nat) (x : Item) :
+    (([(w, x)] : List (Nat × Item)).filter (fun y => y.1 == w')).map (·.2) = if w = w' then [x] else [] := by
+  by_cases h : w = w' <;> simp [h]
+
+theorem inv_step {items : Nat → List Item} {s s' : PState} {e : Event}
+    (hi : Inv items s) (hs : step s e = some s') : Inv items s' := by
+  cases e with
+  | put w =>
+    simp only [step] at hs
+    cases htodo : (s.ws w).todo with
+    | nil => simp [htodo] at hs
+    | cons x t =>
+      simp only [htodo] at hs
+      split at hs
+      · rename_i hc
+        simp only [Bool.and_eq_true, decide_eq_true_eq] at hc
+        cases hs
+        refine ⟨?_, ?_, ?_, hi.pcLoop, hi.pcGet, hi.pcDone⟩
+        · intro w'
+          have := hi.conserve w'
+          by_cases hw : w' = w
+          · subst hw
+            simp only [gotFrom, pipeOf, setW, if_true] at this ⊢
+            rw [← this, htodo]; simp
+          · simpa [gotFrom, pipeOf, setW, hw] using this
+        · intro w' hd
+          by_cases hw : w' = w
+          · subst hw
+            simp only [setW, if_true] at hd
+            rw [hc.1] at hd; cases hd
+          · simp only [setW, hw, if_false] at hd ⊢
+            exact hi.dead w' hd
+        · intro w' hr
+          by_cases hw : w' = w
+          · subst hw
+            have := hi.run w' hr
+            rw [hc.1] at this; cases this
+          · simp only [setW, hw, if_false]
+            exact hi.run w' hr
+      · cases hs
+  | feed w =>
+    simp only [step] at hs
+    cases hbuf : (s.ws w).buf with
+    | nil => simp [hbuf] at hs
+    | cons x b =>
+      simp only [hbuf] at hs
+      cases hs
+      have halive : (s.ws w).alive = true := by
+        by_contra hne
+        have := (hi.dead w (by simpa using hne)).2
+        rw [hbuf] at this; cases this
+      have hrun : s.running ≠ [] := by
+        intro h0
+        have := hi.run w (by rw [h0]; simp)
+        rw [halive] at this; cases this
+      refine ⟨?_, ?_, ?_, ?_, ?_, ?_⟩
+      · intro w'
+        have := hi.conserve w'
+        by_cases hw : w' = w
+        · subst hw
+          simp only [gotFrom, pipeOf, setW, if_true, List.filter_append, List.map_append] at this ⊢
+          rw [← this, hbuf]; simp
+        · have hw2 : ¬ w = w' := fun h => hw h.symm
+          simp only [gotFrom, pipeOf, setW, hw, if_false, List.filter_append, List.map_append] at this ⊢
+          rw [← this]
+          simp [hw2]
+      · intro w' hd
+        by_cases hw : w' = w
+        · subst hw
+          simp only [setW, if_true] at hd
+          rw [halive] at hd; cases hd
+        · simp only [setW, hw, if_false] at hd ⊢
+          exact hi.dead w' hd
+      · intro w' hr
+        by_cases hw : w' = w
+        · subst hw
+          simp only [setW, if_true]
+          exact hi.run w' hr
+        · simp only [setW, hw, if_false]
+          exact hi.run w' hr
+      · intro _ h0; exact absurd h0 hrun
+      · intro _; simp
+      · intro hd; exact absurd (hi.pcDone hd).1 hrun
+  | die w =>
+    simp only [step] at hs
+    split at hs
+    · rename_i hc
+      simp only [Bool.and_eq_true, List.isEmpty_iff] at hc
+      cases hs
+      refine ⟨?_, ?_, ?_, hi.pcLoop, hi.pcGet, hi.pcDone⟩
+      · intro w'
+        have := hi.conserve w'
+        by_cases hw : w' = w
+        · subst hw; simpa [gotFrom, pipeOf, setW] using this
+        · simpa [gotFrom, pipeOf, setW, hw] using this
+      · intro w' hd
+        by_cases hw : w' = w
+        · subst hw
+          simp only [setW, if_true]
+          exact ⟨hc.1.2, hc.2⟩
+        · simp only [setW, hw, if_false] at hd ⊢
+          exact hi.dead w' hd
+      · intro w' hr
+        by_cases hw : w' = w
+        · subst hw; simp [setW]
+        · simp only [setW, hw, if_false]
+          exact hi.run w' hr
+    · cases hs
+  | parent stale =>
+    simp only [step] at hs
+    cases hpc : s.pc with
+    | loopTest =>
+      simp only [hpc] at hs
+      cases hs
+      refine ⟨hi.conserve, hi.dead, hi.run, ?_, ?_, ?_⟩
+      · intro h; simp only at h; split at h <;> cases h
+      · intro h; simp only at h; split at h <;> cases h
+      · intro h
+        simp only at h
+        split at h
+        · rename_i he
+          have hr : s.running = [] := List.isEmpty_iff.mp he
+          exact ⟨hr, hi.pcLoop hpc hr⟩
+        · cases h
+    | filter =>
+      simp only [hpc] at hs
+      cases hs
+      refine ⟨hi.conserve, hi.dead, ?_, ?_, ?_, ?_⟩
+      · intro w hw
+        simp only [List.mem_filter, not_and, Bool.or_eq_true, not_or] at hw
+        by_cases hr : w ∈ s.running
+        · have := (hw hr).1
+          simpa using this
+        · exact hi.run w hr
+      · intro h; cases h
+      · intro h; cases h
+      · intro h; cases h
+    | emptyTest =>
+      simp only [hpc] at hs
+      cases hs
+      refine ⟨hi.conserve, hi.dead, hi.run, ?_, ?_, ?_⟩
+      · intro h _
+        simp only at h
+        split at h
+        · rename_i he; exact List.isEmpty_iff.mp he
+        · cases h
+      · intro h
+        simp only at h
+        split at h
+        · cases h
+        · rename_i he
+          intro h0; exact he (by rw [h0]; rfl)
+      · intro h; simp only at h; split at h <;> cases h
+    | get =>
+      simp only [hpc] at hs
+      cases hpipe : s.pipe with
+      | nil => simp [hpipe] at hs
+      | cons x p =>
+        simp only [hpipe] at hs
+        cases hs
+        refine ⟨?_, hi.dead, hi.run, ?_, ?_, ?_⟩
+        · intro w
+          have := hi.conserve w
+          simp only [gotFrom, pipeOf, hpipe, List.filter_cons, List.filter_append, List.map_append] at this ⊢
+          rw [← this]
+          by_cases hx : x.1 = w
+          · simp [hx]
+          · simp [hx]
+        · intro h; cases h
+        · intro h; cases h
+        · intro h; cases h
+    | done => simp [hpc] at hs
+
+theorem inv_run {items : Nat → List Item} {s s' : PState} (evs : List Event)
+    (hi : Inv items s) (hr : run s evs = some s') : Inv items s' := by
+  induction evs generalizing s with
+  | nil => simp only [run, Option.some.injEq] at hr; subst hr; exact hi
+  | cons e es ih =>
+    simp only [run] at hr
+    cases hst : step s e with
+    | none => simp [hst] at hr
+    | some s1 =>
+      simp only [hst] at hr
+      exact ih (inv_step hi hst) hr
+
+/-- when the parent has left its loop it has received everything, per worker in order -/
+theorem inv_done {items : Nat → List Item} {s : PState} (hi : Inv items s) (hd : s.pc = .done) :
+    ∀ w, gotFrom s w = items w := by
+  intro w
+  obtain ⟨hr, hp⟩ := hi.pcDone hd
+  have ha := hi.run w (by rw [hr]; simp)
+  obtain ⟨ht, hb⟩ := hi.dead w ha
+  have := hi.conserve w
+  simpa [pipeOf, hp, ht, hb] using this
+
+/-- the parent is never stuck before `done` (its `get` finds an object) -/
+theorem inv_parent_enabled {items : Nat → List Item} {s : PState} (hi : Inv items s)
+    (hd : s.pc ≠ .done) : ∃ s', step s (.parent []) = some s' := by
+  simp only [step]
+  cases hpc : s.pc with
+  | loopTest => exact ⟨_, rfl⟩
+  | filter => exact ⟨_, rfl⟩
+  | emptyTest => exact ⟨_, rfl⟩
+  | get =>
+    cases hp : s.pipe with
+    | nil => exact absurd hp (hi.pcGet hpc)
+    | cons x p => exact ⟨_, rfl⟩
+  | done => exact absurd hpc hd
+
+end CFiles
